@@ -839,6 +839,36 @@ import numpy as np
 _CLASSES = {}
 
 
+class SaveCancelled(BaseException):
+    """an injected failure that does not derive from Exception (cancellation / Ctrl-C style)"""
+
+
+def _injected(tensor_or_kind, what):
+    kind = tensor_or_kind if isinstance(tensor_or_kind, str) else getattr(tensor_or_kind, "_c09_exc", "runtime")
+    return SaveCancelled(f"injected {what} cancellation") if kind == "base" else RuntimeError(f"injected {what} failure")
+
+
+class _RecFile:
+    """Destination handed to ExternalTensor.tofile: no fileno(), so the userspace copy loop is taken (as on a
+    platform / file system without copy_file_range), and every buffer passed to write() is reported."""
+
+    def __init__(self, file, on_buffer):
+        self._file, self._on_buffer = file, on_buffer
+
+    def write(self, b):
+        self._on_buffer(len(b))
+        return self._file.write(b)
+
+    def seek(self, *a):
+        return self._file.seek(*a)
+
+    def tell(self):
+        return self._file.tell()
+
+    def flush(self):
+        return self._file.flush()
+
+
 def _classes():
     if _CLASSES:
         return _CLASSES
@@ -849,18 +879,18 @@ def _classes():
             h = getattr(self, "_c09_hook", None)
             if h is None:
                 if getattr(self, "_c09_wfail", False):
-                    raise RuntimeError("injected write failure")
+                    raise _injected(self, "write")
                 return super().tofile(file)
-            return h(self, lambda: ir.Tensor.tofile(self, file))
+            return h(self, file, ir.Tensor.tofile)
 
     class HookExternalTensor(ir.ExternalTensor):
         def tofile(self, file):
             h = getattr(self, "_c09_hook", None)
             if h is None:
                 if getattr(self, "_c09_wfail", False):
-                    raise RuntimeError("injected write failure")
+                    raise _injected(self, "write")
                 return super().tofile(file)
-            return h(self, lambda: ir.ExternalTensor.tofile(self, file))
+            return h(self, file, ir.ExternalTensor.tofile)
 
     _CLASSES.update(mem=HookTensor, ext=HookExternalTensor)
     return _CLASSES
@@ -901,6 +931,8 @@ def build_model(hc, workdir, with_failures=True):
                 obj = cls["mem"](arr, name=f"w{i}")
             obj._c09_obj = o
             obj._c09_wfail = bool(t["wfail"]) and with_failures
+            obj._c09_exc = t.get("exc", "runtime")
+            obj._c09_ext = bool(t["ext"])
             obj._c09_need = min(t["len"], hc["chunk"]) if (t["ext"] and hc.get("chunk")) else t["len"]
             objs[o] = obj
         inits.append(ir.Value(name=f"w{i}", const_value=objs[o], type=ir.TensorType(ir.DataType.UINT8),
@@ -991,24 +1023,38 @@ def run_coop(hc, plan, workdir, chooser, pickfn=None, keyfn=None, max_steps=4000
     result = {}
     need_of = {o: t._c09_need for o, t in objs.items()}
 
-    def hook(tensor, do):
+    def hook(tensor, file, base):
         me = sched.cur
         o = tensor._c09_obj
         users = rt.in_write.setdefault(o, [])
         if users:
             rt.problems.append(f"tensor object {o} evaluated by {me.name} while {users[0].name} is still using it")
         users.append(me)
-        rt.materialised += need_of[o]
-        rt.max_materialised = max(rt.max_materialised, rt.materialised)
+        held = {"n": 0}
+
+        def account(n):
+            # bytes this thread holds in userspace right now (whole tensor for in-memory tensors, the buffer
+            # handed to file.write for ExternalTensor sources)
+            rt.materialised += n - held["n"]
+            held["n"] = n
+            rt.max_materialised = max(rt.max_materialised, rt.materialised)
         try:
+            if not tensor._c09_ext:
+                account(need_of[o])
             sched.point("write")
             sched.emit(rt._wrk(me), 13 if tensor._c09_wfail else 12, me.task)
             if tensor._c09_wfail:
-                raise RuntimeError("injected write failure")
-            do()
+                raise _injected(tensor, "write")
+            if tensor._c09_ext:
+                def on_buffer(n):
+                    account(n)
+                    sched.point("write:buffer")      # other threads may run while this buffer is alive
+                base(tensor, _RecFile(file, on_buffer))
+            else:
+                base(tensor, file)
         finally:
             users.remove(me)
-            rt.materialised -= need_of[o]
+            account(0)
     for t in objs.values():
         t._c09_hook = hook
 
@@ -1025,7 +1071,7 @@ def run_coop(hc, plan, workdir, chooser, pickfn=None, keyfn=None, max_steps=4000
             rt.cb_log.append((info.index, me.name))
             sched.emit(rt._wrk(me), 5 if info.index in cbfail else 4, me.task)
             if info.index in cbfail:
-                raise RuntimeError("injected callback failure")
+                raise _injected(hc["tensors"][info.index].get("exc", "runtime"), "callback")
         finally:
             rt.in_cb.remove(me)
 
@@ -1283,23 +1329,43 @@ def gen_hc(rng, size="small", fail=None):
             tensors[-1]["obj"] = tensors[0]["obj"]          # a tensor object shared across shards
         if fail if fail is not None else rng.random() < 0.35:
             i = rng.randrange(len(tensors))
+            kind = rng.choice(["runtime", "base"])
             if rng.random() < 0.5:
                 tensors[i]["cbfail"] = True
+                tensors[i]["exc"] = kind
             else:
                 for t in tensors:
                     if t["obj"] == tensors[i]["obj"]:
                         t["wfail"] = True
+                        t["exc"] = kind
         return {"tensors": tensors, "max_workers": shards * rng.choice([3, 3, 4]), "cap": cap,
                 "max_shard": unit * per[0], "chunk": None, "tseed": rng.randrange(1 << 30)}
-    if size == "tiny":
+    if size == "extchunk":
+        # ExternalTensor sources longer than the budget, copied through userspace in chunks <= budget / 2
+        n, mw = rng.choice([3, 4]), rng.choice([2, 3, 4])
+        cap, chunk = rng.choice([(4, 2), (6, 2), (6, 3), (8, 4)])
+        tensors = [{"len": cap + rng.choice([1, 2, 3, 5]), "obj": i, "ext": True, "cbfail": False, "wfail": False}
+                   for i in range(n)]
+        if rng.random() < 0.4:
+            tensors.append({"len": rng.choice([1, 2, cap]), "obj": n, "ext": False, "cbfail": False, "wfail": False})
+        if fail if fail is not None else rng.random() < 0.2:
+            tensors[rng.randrange(len(tensors))].update(wfail=True, exc=rng.choice(["runtime", "base"]))
+        return {"tensors": tensors, "max_workers": mw, "cap": cap,
+                "max_shard": rng.choice([None, None, sum(t["len"] for t in tensors)]), "chunk": chunk,
+                "tseed": rng.randrange(1 << 30)}
+    if size == "oneshard":
+        n, mw = rng.choice([3, 4, 5]), rng.choice([2, 3, 4])
+    elif size == "tiny":
         n, mw = rng.choice([2, 2, 3]), 2
     elif size == "small":
         n, mw = rng.choice([2, 3, 3, 4]), rng.choice([2, 2, 3])
     else:
         n, mw = rng.choice([3, 4, 5, 6, 8]), rng.choice([2, 3, 4, 6, 8])
-    cap = rng.choice([1, 2, 3, 4, 6, 8, 12, 1 << 20])
+    cap = rng.choice([1, 2, 3, 4, 6, 8, 12, 1 << 20]) if size != "oneshard" else rng.choice([2, 3, 4, 6, 8])
     lens = [rng.choice([1, 1, 2, 3, 4, 5, 7, 9, 13]) for _ in range(n)]
-    if rng.random() < 0.5:                         # several tensors larger than the budget
+    if size == "oneshard":
+        lens = [rng.choice([max(1, cap // 2), max(1, cap - 1), cap]) for _ in range(n)]
+    if rng.random() < 0.5 and size != "oneshard":  # several tensors larger than the budget
         for i in rng.sample(range(n), k=min(n, 2)):
             lens[i] = cap + rng.choice([1, 2, 5]) if cap < 100 else lens[i]
     tensors = []
@@ -1315,14 +1381,21 @@ def gen_hc(rng, size="small", fail=None):
     if fail:
         for _ in range(rng.choice([1, 1, 2])):
             i = rng.randrange(n)
+            kind = rng.choice(["runtime", "base"])
             if rng.random() < 0.5:
                 tensors[i]["cbfail"] = True
+                tensors[i]["exc"] = kind
             else:
                 for t in tensors:
                     if t["obj"] == tensors[i]["obj"]:
                         t["wfail"] = True
+                        t["exc"] = kind
     max_shard = None
-    if size != "tiny" and rng.random() < (0.45 if size == "large" else 0.3):
+    if size == "oneshard":
+        # sharding requested but everything fits in ONE shard: the non-concurrent shard loop with a parallel
+        # inner writer that must honour the caller's (small) budget
+        max_shard = sum(t["len"] for t in tensors) + rng.choice([0, 1, 50])
+    elif size != "tiny" and rng.random() < (0.45 if size == "large" else 0.3):
         max_shard = rng.choice([2, 4, 6, 10, 16])
     return {"tensors": tensors, "max_workers": mw, "cap": cap, "max_shard": max_shard,
             "chunk": rng.choice([None, 2, 4]) if any(t["ext"] for t in tensors) else None,
@@ -1353,23 +1426,36 @@ def soak(hc, plan, workdir, rng, runs) -> list[str]:
         delays = [rng.random() * 0.0008 for _ in range(64)]
         budgets = []
 
-        def hook(tensor, do, st=st, mu=mu, delays=delays):
+        def hook(tensor, file, base, st=st, mu=mu, delays=delays):
             o = tensor._c09_obj
+            held = {"n": 0}
+
+            def account(n):
+                with mu:
+                    st["mat"] += n - held["n"]
+                    held["n"] = n
+                    st["maxmat"] = max(st["maxmat"], st["mat"])
             with mu:
                 st["use"][o] = st["use"].get(o, 0) + 1
                 if st["use"][o] > 1:
                     st["problems"].append(f"tensor object {o} used by two threads at once")
-                st["mat"] += tensor._c09_need
-                st["maxmat"] = max(st["maxmat"], st["mat"])
             try:
+                if not tensor._c09_ext:
+                    account(tensor._c09_need)
                 time.sleep(delays[(o * 7 + len(st["cb"])) % 64])
                 if tensor._c09_wfail:
-                    raise RuntimeError("injected write failure")
-                do()
+                    raise _injected(tensor, "write")
+                if tensor._c09_ext:
+                    def on_buffer(n):
+                        account(n)
+                        time.sleep(delays[(o * 3 + n) % 64] / 2)
+                    base(tensor, _RecFile(file, on_buffer))
+                else:
+                    base(tensor, file)
             finally:
+                account(0)
                 with mu:
                     st["use"][o] -= 1
-                    st["mat"] -= tensor._c09_need
         for t in objs.values():
             t._c09_hook = hook
         cbfail = {i for i, t in enumerate(hc["tensors"]) if t["cbfail"]}
@@ -1383,7 +1469,7 @@ def soak(hc, plan, workdir, rng, runs) -> list[str]:
             try:
                 time.sleep(delays[info.index % 64])
                 if info.index in cbfail:
-                    raise RuntimeError("injected callback failure")
+                    raise _injected(hc["tensors"][info.index].get("exc", "runtime"), "callback")
             finally:
                 with mu:
                     st["in_cb"] -= 1
@@ -1403,7 +1489,7 @@ def soak(hc, plan, workdir, rng, runs) -> list[str]:
                                      callback=callback, max_workers=hc["max_workers"],
                                      max_in_flight_bytes=hc["cap"])
                 box["outcome"] = "ok"
-            except Exception as e:  # noqa: BLE001
+            except BaseException as e:  # noqa: BLE001
                 box["outcome"] = "raise:" + type(e).__name__
         try:
             with _chunk(hc):
@@ -1665,7 +1751,7 @@ def run(ck) -> None:
     for i in range(n_cfg):
         if col.failures and len(col.failures) > 3:
             break
-        hc = gen_hc(rng, ["large", "small", "twolevel", "small", "small", "twolevel"][i % 6])
+        hc = gen_hc(rng, ["large", "small", "twolevel", "oneshard", "small", "extchunk", "twolevel", "small", "oneshard"][i % 9])
         try:
             plan = col.plan(hc)
         except Exception as e:  # noqa: BLE001
@@ -1704,7 +1790,7 @@ def run(ck) -> None:
     if col.failures:
         soak_cfgs = 0              # already failing under a replayable schedule: report that
     for i in range(soak_cfgs):
-        hc = gen_hc(rng, "large" if i % 2 else "twolevel")
+        hc = gen_hc(rng, ["twolevel", "large", "oneshard", "extchunk"][i % 4])
         plan = col.plan(hc)
         bad = soak(hc, plan, col.wd, rng, soak_runs)
         ck.count(soak_runs)
@@ -1746,7 +1832,7 @@ def search(ck, col) -> None:
     i = 0
     while time.time() < deadline:
         i += 1
-        hc = gen_hc(rng, rng.choice(["tiny", "small", "small", "large", "twolevel"]))
+        hc = gen_hc(rng, rng.choice(["tiny", "small", "small", "large", "twolevel", "oneshard", "extchunk"]))
         try:
             plan = col.plan(hc)
         except Exception:  # noqa: BLE001
